@@ -7,7 +7,9 @@ package mcp
 // leading or trailing newline), where every call is then answered with its id.
 
 import (
+	"context"
 	"encoding/json"
+	"io"
 	"fmt"
 	"net/http"
 	"net/http/httptest"
@@ -43,6 +45,52 @@ func c19Whitespace(cases *verifx.Cases, t interface {
 			out = append(out, string(b))
 		}
 		return out
+	}
+	// ---- a line on the newline-delimited transport (stdio, IOTransport): blanks and tabs before and after
+	// the JSON text of a line are as insignificant as anywhere else; the line and the one after it are read
+	linePads := []string{"", " ", "\t", "  ", " \t "}
+	const sentinel = `{"jsonrpc":"2.0","id":99,"method":"ping"}`
+	for _, p := range payloads {
+		text := strings.ReplaceAll(p.text, "\n", " ")
+		refMsgs, _, refErr := readBatch([]byte(text))
+		for _, eol := range []string{"\n", "\r\n"} {
+			for _, pre := range linePads {
+				for _, suf := range linePads {
+					idx, mine := cases.Next()
+					if !mine {
+						continue
+					}
+					desc := fmt.Sprintf("line %q + %s + %q + %q on the newline-delimited transport", pre, p.name, suf, eol)
+					if refErr != nil {
+						cases.Violate(idx, "c19 whitespace reference-undecodable", fmt.Sprintf("%s: %v", p.name, refErr), 1)
+						continue
+					}
+					rd := io.NopCloser(strings.NewReader(pre + text + suf + eol + sentinel + eol))
+					conn, _ := (&IOTransport{Reader: rd, Writer: c19NopWriter{}}).Connect(context.Background())
+					sm, _, _ := readBatch([]byte(sentinel))
+					want := enc(append(append([]jsonrpc.Message{}, refMsgs...), sm...))
+					var got []string
+					var rerr error
+					for range want {
+						m, err := conn.Read(context.Background())
+						if err != nil {
+							rerr = err
+							break
+						}
+						got = append(got, enc([]jsonrpc.Message{m})...)
+					}
+					conn.Close()
+					switch {
+					case rerr != nil:
+						cases.Violate(idx, "c19 whitespace padded-payload-refused ndjson", fmt.Sprintf("%s: after %d of %d messages the reader failed: %v (the connection is gone)", desc, len(got), len(want), rerr), 1)
+					case !reflect.DeepEqual(got, want):
+						cases.Violate(idx, "c19 whitespace padded-payload-decodes-differently ndjson", fmt.Sprintf("%s: read %v, want %v", desc, got, want), 1)
+					default:
+						cases.Record(idx, fmt.Sprintf("ndjson n=%d", len(got)), 1, func() string { return desc })
+					}
+				}
+			}
+		}
 	}
 	for _, p := range payloads {
 		refMsgs, refBatch, refErr := readBatch([]byte(p.text))
